@@ -569,6 +569,34 @@ func swapWritesOnAllPaths(pc *pathCons, fn *ssa.Function, f *types.Var) bool {
 func runC12(c *Ctx) {
 	// pages re-indexed for the target schema stay re-indexed when sliced
 	wrapperPreservedRule(c, "C12.wrapper", "Page", "Slice", 4)
+	// MergeRowGroups converts every input to the merged schema; values are
+	// converted by the Rows() of the converted row groups, so the result must
+	// not be a bare multi-row-group (whose Rows() reads the flattened chunks)
+	if obj := c.P.LookupFunc("MergeRowGroups"); c.Anchor("C12.mergeconv", "MergeRowGroups", obj != nil) {
+		fn := c.P.SSAFunc(obj)
+		var bad []string
+		nret := 0
+		for _, ret := range returnsOf(fn) {
+			rv, _ := retResult(ret, 0)
+			if rv == nil || isNilConst(rv) {
+				continue
+			}
+			nret++
+			for _, o := range Origins(rv, OriginOpts{}) {
+				t := o.Val.Type()
+				if o.Kind == OrgCall {
+					if sig := o.Call.Common().Signature(); sig != nil && sig.Results().Len() > 0 {
+						t = sig.Results().At(0).Type()
+					}
+				}
+				if nt := namedOf(t); nt != nil && nt.Obj().Name() == "multiRowGroup" {
+					bad = append(bad, c.P.Pos(ret.Pos()))
+				}
+			}
+		}
+		sort.Strings(bad)
+		c.Check("C12.mergeconv", "MergeRowGroups never returns a bare multi-row-group", fn.Pos(), len(bad) == 0 && nret > 0, "MergeRowGroups returns a plain multiRowGroup ("+strings.Join(bad, ", ")+") over its converted inputs: its Rows() reads the flattened column chunks, which for a converted row group may be the source's, so conversions that change values (timestamp units, added columns) are bypassed and the rows do not match the merged schema")
+	}
 	p := c.P
 	// polarity: explicit families
 	rule := "C12.polarity"
